@@ -399,6 +399,7 @@ package storage
 //@   modifies s.index
 //@   at-call segment.snapshotClosed requires only-while-closed: s.index == nil && s.refCount == old(s.refCount) && s.mustBeDeleted == 0
 //@   at-call segment.snapshotOpen requires only-while-pinned: s.index != nil && arg1 == s.index && s.refCount == old(s.refCount) + 1 && s.mustBeDeleted == 0
+//@   at-stmt "s.mu.Unlock()" requires the-mutex-is-released-early-only-when-skipping-or-after-pinning: s.mustBeDeleted != 0 || (s.index != nil && s.refCount == old(s.refCount) + 1)
 //@   ensures  flagged-skipped: s.mustBeDeleted != 0 ==> !result0 && result1 == nil
 //@   ensures  never-reopens: old(s.index) == nil ==> s.index == nil
 //@   ensures  undisturbed: s.index == old(s.index) && s.refCount == old(s.refCount)
